@@ -425,6 +425,13 @@ def sign_trainable(cfg):
   return True
 
 
+def codes_depend_on_draw(cfg):
+  """binary / ternary with alpha='auto*' fit their scale by least squares to the
+  codes they have just drawn: the code set is a function of the execution, so
+  draws of different executions do not share one code set."""
+  return cfg["cls"] in ("binary", "ternary") and isinstance(cfg["kw"].get("alpha"), str)
+
+
 def sign_variant(cfg):
   a = cfg["kw"].get("alpha")
   v = a if isinstance(a, str) else ("none" if a is None else "const")
